@@ -193,7 +193,7 @@ func c17Worker(c *core.Collector, x *Ctx) {
 	devnull, _ := os.OpenFile("/dev/null", os.O_WRONLY, 0)
 	os.Stdout = devnull // decodeHead prints the offending bytes on unqualified data
 	c.Rule = "streams of 1..6 reference-built packets: all 16 data types x 16 marks x M x payload types x payload lengths {0,1,2,949,950,951,1500,65535,random}; " +
-		"every cut length 0..len of single packets and of sampled streams; random strings >=16 B with/without marker; mutated headers. " +
+		"every cut length 0..len of single packets and of sampled streams; delta streams (consecutive packets differing in exactly one header byte); random strings >=16 B with/without marker; mutated headers. " +
 		"non-trivial = stream with >=2 packets, or a cut inside a packet, or a non-audio layout (dt 0-2 or 4); distinct by hash of the decoded input"
 	lens := []int{0, 1, 2, 949, 950, 951, 1500, 65535}
 	steps := c.Counter("decode_steps")
@@ -206,7 +206,7 @@ func c17Worker(c *core.Collector, x *Ctx) {
 		if guard(c, w, func() { bad = c17Stream(stream, pks) }) {
 			return
 		}
-		if bad == "" && len(pks) >= 2 {
+		if bad == "" && (len(pks) >= 2 || gen == "delta") {
 			reused := false
 			w2 := func() any {
 				return map[string]any{"kind": "c17", "stream": core.HexCap(stream, 4096), "gen": gen, "reuse": true}
@@ -262,6 +262,36 @@ func c17Worker(c *core.Collector, x *Ctx) {
 		}
 	})
 	c.Count("single_packet_layouts", int64(len(jobs)))
+	// (1b) delta streams: consecutive packets that differ in exactly ONE header byte (every header byte except the data-type
+	// nibble and the length field, several bit masks), decoded with fresh packets and with one reused Packet object: state that
+	// survives between decodes (a cache keyed on part of a field, a field only written when "changed") shows here
+	core.ParallelFor(16*4, ncpu(), func(i int) {
+		dt := i % 16
+		r := core.NewRand(c.Seed, "c17d", uint64(i))
+		k := c17Gen(r, dt, core.Pick(r, []int{0, 1, 7, 40}))
+		b := k.Build()
+		hlen := len(b) - len(k.Payload)
+		var stream []byte
+		n := 0
+		for j := 4; j < hlen-2; j++ {
+			for _, mask := range []byte{0x01, 0x10, 0x80, 0xff, 0x0f} {
+				if j == 15 {
+					mask &= 0x0f // keep the data type: it decides the layout
+					if mask == 0 {
+						continue
+					}
+				}
+				v := append([]byte{}, b...)
+				v[j] ^= mask
+				stream = append(stream, b...)
+				stream = append(stream, v...)
+				n += 2
+			}
+		}
+		stream = append(stream, b...)
+		run(stream, nil, true, "delta")
+		c.Count("delta_stream_packets", int64(n+1))
+	})
 	// (2) random streams
 	n := c.N(6000, 400000)
 	core.ParallelFor(n, ncpu(), func(i int) {
@@ -308,4 +338,5 @@ func c17Worker(c *core.Collector, x *Ctx) {
 	})
 	c.Floor("decode_steps", 50000)
 	c.Floor("streams_decoded_with_one_reused_packet", 1000)
+	c.Floor("delta_stream_packets", 5000)
 }
